@@ -54,7 +54,7 @@ REQUIRED = ["sphere_checked", "cap_checked", "frustum_checked", "ss_intersection
             "sf_union_from_frustum", "integer_centres", "integer_sizes",
             "integer_sizes_cube_beyond_int64", "direction_near_axis", "micro_or_huge_sizes",
             "sizes_as_numpy_scalars_or_0d_arrays", "rejected_call_before_get_volume"]
-FLOOR = {"quick": 3000, "thorough": 80000}
+FLOOR = {"quick": 3000, "thorough": 640000}
 SHARDS = {"quick": 8, "thorough": 16}
 
 AXES = [[1, 0, 0], [-1, 0, 0], [0, 1, 0], [0, -1, 0], [0, 0, 1], [0, 0, -1], [1, 1, 1],
@@ -345,7 +345,7 @@ def run(ctx):
     targets = {"sdf_sampling": vo.VolMCObject._get_volume} if hasattr(vo, "VolMCObject") else {}
     tap = probes.CallTap(targets)
     with tap:
-        for _ in range(ctx.scale(5000, 130000)):
+        for _ in range(ctx.scale(5000, 1040000)):
             case = draw_case(rng)
             ctx.case(case, nontrivial=not (case["kind"] == "ss" and case["rel"] == "disjoint"),
                      klass=case["kind"] + ("/" + case["rel"] if case["kind"] == "ss" else ""))
